@@ -286,11 +286,8 @@ def append_deprecated_doc(
 
     def option_was_written(opt: str) -> bool:
         if opt in config.named_choices:
-            syms = config.named_choices[opt].syms
-            for s in syms:
-                if any(visibility.visible(node) for node in s.nodes):
-                    return True
-            return False
+            # The entry (and the anchor) of a choice is written for the choice node itself, not for its members.
+            return any(visibility.visible(node) for node in config.named_choices[opt].nodes)
         else:
             try:
                 return any(visibility.visible(node) for node in config.syms[opt].nodes)
